@@ -8,8 +8,10 @@ CONSTANTS
   DeadlineSource = "private"
   MarkMode = "leak-on-missing"
   MaxW = 2
+  LookupMode = "fresh"
+  MaxConns = 1
   Cases <- MCCases
 VIEW view
-INVARIANTS NoBytes NoEarlyClose KeepsReading MatchSound ConsumeExact FoundWhenComplete NeverDropsMatching MarkedUsed RegistryFree DeadlineUnpredictable
+INVARIANTS NoBytes NoEarlyClose KeepsReading MatchSound ConsumeExact FoundWhenComplete NeverDropsMatching MarkedUsed TableSound RegistryFree DeadlineUnpredictable
 PROPERTIES Recognised Terminates
 CHECK_DEADLOCK FALSE
